@@ -2,8 +2,8 @@
 import os, re
 from vf.core import *
 ROOTS = ['vf_gt_pair_u', 'vf_gt_ptr_u', 'vf_gt_at_u', 'vf_gt_pair_s', 'vf_gt_ptr_s',
-         'vf_gs_setup', 'vf_gs_arr', 'vf_gs_sz', 'vf_gs_rsz', 'vf_gs_find_k', 'vf_gs_find_kc', 'vf_gs_find_ka', 'vf_gs_insert', 'vf_gs_clear',
-         'vf_ps_setup', 'vf_ps_ctor_ftha', 'vf_ps_ctor_copy', 'vf_ps_arr', 'vf_ps_sz', 'vf_ps_rsz', 'vf_ps_find_k', 'vf_ps_find_kc', 'vf_ps_find_t', 'vf_ps_find_tc',
+         'vf_gs_setup', 'vf_gs_ctor_arr', 'vf_gs_ctor_empty', 'vf_gs_arr', 'vf_gs_sz', 'vf_gs_rsz', 'vf_gs_find_k', 'vf_gs_find_kc', 'vf_gs_find_ka', 'vf_gs_insert', 'vf_gs_clear',
+         'vf_ps_setup', 'vf_ps_ctor_arr', 'vf_ps_ctor_empty', 'vf_ps_ctor_ftha', 'vf_ps_ctor_copy', 'vf_ps_arr', 'vf_ps_sz', 'vf_ps_rsz', 'vf_ps_find_k', 'vf_ps_find_kc', 'vf_ps_find_t', 'vf_ps_find_tc',
          'vf_ps_find_ka', 'vf_ps_insert', 'vf_ps_insert_range', 'vf_ps_clear', 'vf_ft_fnum', 'vf_ha_ctor', 'vf_ha_els', 'vf_ha_sz', 'vf_ha_arr']
 GTF = ['FIX8::GeneratedTable<K,V>::_find', 'find_pair_ptr', 'find_ptr', 'at', 'FIX8::_pair<K,V>::Less (unsigned and const char* keys)', 'std::lower_bound (header code)']
 SETF = ['FIX8::presorted_set<K,T,Comp>::insert(const_iterator)', 'find(K)', 'find(K) const', 'find(K, bool&)', 'find(T, bool&)', 'clear', 'calc_reserve', 'begin/end/size/rsize', 'std::equal_range (header code)']
@@ -47,9 +47,9 @@ def run(ctx):
     S = VERIF + '/harness/C12_set.c'
     ns = 4 if not thorough else 6
     for st, nm, fn in ((0, 'generic', SETF), (1, 'presence', PSF)):
-        for op, onm in ((0, 'insert'), (1, 'find'), (2, 'clear')) + (((3, 'insert_range'),) if st == 1 else ()):
+        for op, onm in ((0, 'insert'), (1, 'find'), (2, 'clear'), (4, 'ctor')) + (((3, 'insert_range'),) if st == 1 else ()):
             hs.append(Harness('C12_set_%s_%s' % (nm, onm), S, defines=defs + T + ['SET=%d' % st, 'OP=%d' % op, 'NS=%d' % ns], unwind=2 * ns + 4, timeout=900, functions=fn, stubs=[NEWSTUB],
-                              bounds='any state with size <= reserved size <= %d, strictly ascending keys (all 16-bit values), reserve percentage 0..100, array allocated or (empty set) still deferred; any key' % ns,
+                              bounds='any state with size <= reserved size <= %d, reserved size >= 1, strictly ascending keys (all 16-bit values), reserve percentage 0..100, array allocated or (empty set) still deferred; any key' % ns,
                               desc='one step from any state satisfying the representation invariant'))
     hs.append(Harness('C12_hash_array', VERIF + '/harness/C12_hash.c', defines=defs + T + ['NT=%d' % nt, 'TAGMAX=%d' % (64 if not thorough else 128)], unwind=(66 if not thorough else 130), timeout=900, functions=PSF, stubs=[NEWSTUB],
                       bounds='any strictly ascending trait table of 1 <= n <= %d tags below %d, every key 0..65535, arbitrary previous contents of the set object' % (nt, 64 if not thorough else 128),
@@ -78,7 +78,7 @@ def replay(ctx, cx, h=None):
         if kind == 1: args = ['gts', str(n)] + lst('cx_pstr', 2) + lst('cx_strs', 3 * n)
         else: args = ['gtu', str(kind), str(n), str(int(c.get('cx_probe', 0))), str(int(c.get('cx_idx', 0)) & 0xffffffff)] + lst('cx_key', n)
     elif name.startswith('C12_set'):
-        st = 0 if 'generic' in name else 1; op = {'insert': 0, 'find': 1, 'clear': 2}.get(name.split('_', 3)[3], 3)
+        st = 0 if 'generic' in name else 1; op = {'insert': 0, 'find': 1, 'clear': 2, 'ctor': 4}.get(name.split('_', 3)[3], 3)
         sz = int(c.get('cx_sz', 0))
         args = ['set', str(st), str(op), str(sz), str(int(c.get('cx_rsz', 0))), str(int(c.get('cx_reserve', 0))), str(int(c.get('cx_null', 0))), str(int(c.get('cx_key', 0))), str(int(c.get('cx_key2', 0)))] + lst('cx_k', sz)
     else:
